@@ -39,9 +39,18 @@ func TestBasic(t *testing.T) {
 		e.Yield("q", 0)
 		order = append(order, "c-not-reached")
 	})
+	c.Unwind = true
 	e.KillHost(1)
 	if c.State() != Done || order[len(order)-1] != "c-unwound" {
 		t.Fatalf("kill failed %v %v", c.State(), order)
+	}
+	d := e.Start("d", 2, "d", func() {
+		defer func() { order = append(order, "d-unwound") }()
+		e.Yield("q", 0)
+	})
+	e.KillHost(2)
+	if d.State() != Parked || e.Zombies() != 1 || order[len(order)-1] == "d-unwound" {
+		t.Fatalf("zombie expected %v %d %v", d.State(), e.Zombies(), order)
 	}
 	if len(e.Live()) != 0 {
 		t.Fatalf("live %d", len(e.Live()))
